@@ -10,7 +10,9 @@
 (*         in-memory connections of the C17 harness), "ca1"/"ca2" (its      *)
 (*         certificate names the endpoint and is issued by that CA),        *)
 (*         "foreign" (issued by a CA that is not configured), "selfsigned", *)
-(*         "expired", "wrongname" (both issued by CA1)                      *)
+(*         "expired", "wrongname" (both issued by CA1), "hosttrusted"       *)
+(*         (right name, valid, issued by a CA that is in the trust store of *)
+(*         the RA's host but not in the configured bundle)                  *)
 (*   vmax  highest protocol version the server offers: "tls13", "tls12",    *)
 (*         "tls11" (= offers TLS 1.0/1.1 only)                              *)
 (*   pol   client-certificate policy: "require" (require and verify),       *)
@@ -60,11 +62,11 @@ NoLbl == [op |-> "init", ep |-> 0, hs |-> "none", ver |-> "none", cc |-> "none",
 \* transport security, design level: what the TLS client of the RA does with the server it reaches.
 \* Client: RootCAs = exactly the configured bundle, ServerName = the endpoint name, versions {1.2, 1.3}.
 Issuer(e)     == CASE e.id \in {"ca1", "expired", "wrongname"} -> "ca1" [] e.id = "ca2" -> "ca2"
-                   [] e.id = "foreign" -> "caX" [] OTHER -> "self"
+                   [] e.id = "foreign" -> "caX" [] e.id = "hosttrusted" -> "caH" [] OTHER -> "self"
 ServerVers(e) == CASE e.vmax = "tls13" -> {10, 11, 12, 13} [] e.vmax = "tls12" -> {10, 11, 12} [] OTHER -> {10, 11}
 ClientVers    == {12, 13}
 Negotiated(e) == ClientVers \cap ServerVers(e)                \* the highest common version is used
-VerifyPeer(e, b) == /\ Issuer(e) \in b.cas                      \* chain building ends in a configured root
+VerifyPeer(e, b) == /\ Issuer(e) \in b.cas                      \* chain building ends in a configured root (host roots are not used)
                     /\ e.id # "expired"                         \* validity period
                     /\ e.id # "wrongname"                       \* subject alternative names cover the endpoint
 Handshake(e, b) == e.id = "plain" \/ (Negotiated(e) # {} /\ VerifyPeer(e, b))
